@@ -1,4 +1,5 @@
 import XL.Proofs.Syntax
+import XL.Proofs.ParseRender
 /-!
 # C09 — JSON export and import preserve every value and are a fixed point
 
@@ -10,9 +11,10 @@ for two textual encodings, which are what can go wrong:
   `quote_roundtrip` and `escaped_text_parses` show, for **every** text, that this formula is accepted
   by the parser as one string literal whose value is the original text;
 * formula cells are exported as the rendering of their tree; `export_reparse_instances` are
-  kernel-checked instances of "the exported text parses back to the same formula"; the statement
-  for all trees is `parse_render` (with `parse_spell`, not yet ported; DESIGN §9); the pinned code's
-  sign folding makes it false for nested signs (`signrun_export_counterexample`, known finding).
+  kernel-checked instances of "the exported text parses back to the same formula"; for all canonical
+  trees the statement is proved at token level (`export_reparses`: the tokens of the exported text are
+  read back to the same tree, by induction on the tree); the pinned code's sign folding makes it false
+  for nested signs (`signrun_export_counterexample`, known finding), which `Canon` excludes.
 -/
 namespace XL.C09
 open XL
@@ -106,5 +108,10 @@ theorem export_reparse_instances :
 /-- **known finding `sign-run`**: `-(-A1)` is exported `--A1`, which reads back as `+A1` -/
 theorem signrun_export_counterexample :
     reparse "=-(-A1)" = some "=--A1" ∧ reparse "=--A1" = some "=+A1" := by decide +kernel
+
+/-- **the export is a fixed point of parsing** (token level): the tokens of the exported text of a
+canonical tree parse to that tree, so exporting again gives the same text -/
+theorem export_reparses (t : Ast) (hc : Canon t) : (parseToks (toks t)).map render = .ok (render t) := by
+  rw [parse_toks t hc]; rfl
 
 end XL.C09
